@@ -2,7 +2,6 @@ package rapid
 
 // L-TSTATE (C02, C10, C11): one checkOnce from a fresh T, any program.
 
-
 var alphaMain = []uint8{opReturn, opDrawBool, opErrorf, opErrorEmpty, opPanicNil, opFail, opFatalA, opFailNow, opPanicStr, opPanicErr, opNilDeref, opSkip, opCleanup, opCtx, opCustom}
 var alphaSub = []uint8{opReturn, opDrawBool, opErrorf, opErrorEmpty, opFatalB, opPanicStr, opSkip, opCtx, opCleanup}
 
